@@ -1,2 +1,102 @@
-/-! Line driver for C09 (stub; replaced when the model is written). -/
-def main : IO Unit := pure ()
+import MpVerif.C09.Lemmas
+/-!
+Line driver for C09.  One scenario per line:
+
+    run <flags> <stub> <ampl> <opts> <objno> <ncons> <nvars> <pcons> <pvars> <open> <flush> <fault> <code> <havex> <havepi>
+
+* `<flags>`: `-` or a string over `s e d i x` (wantsol, noecho, dashdash, info, invalid)
+* `<opts>`:  `-` or comma-separated tokens `o` (ok), `b` (bad), `v` (invalidValue), `w<n>` (wantsol=n)
+* `<fault>`: `none` or `<stage>:<raise>[:<code>]`
+Output: `<outcome> | good=<0/1> regular=<0/1>`; `bad-op` for anything that cannot be interpreted.
+No logic here: only parsing and calls of model functions.
+-/
+open MpVerif.C09
+
+def parseFlag : Char → Option Flag
+  | 's' => some .wantsol | 'e' => some .noecho | 'd' => some .dashdash | 'i' => some .info | 'x' => some .invalid
+  | _ => none
+
+def parseOptTok (s : String) : Option Opt :=
+  if s == "o" then some .ok
+  else if s == "b" then some .bad
+  else if s == "v" then some .invalidValue
+  else if s.startsWith "w" then (s.drop 1).toNat?.map Opt.wantsol
+  else none
+
+def parseStage : String → Option Stage
+  | "ctor" => some .ctor | "init" => some .init | "openNL" => some .openNL | "header" => some .header
+  | "options" => some .options | "populate" => some .populate | "body" => some .body | "names" => some .names | "convert" => some .convert
+  | "extras" => some .extras | "solve" => some .solve | "report" => some .report | "suffixes" => some .suffixes
+  | _ => none
+
+def parseRaise (s : String) (code : Option Int) : Option Raise :=
+  match s, code with
+  | "plain", none => some .plain
+  | "withCode", some c => some (.withCode c)
+  | "infeas", none => some .infeas
+  | "wrappedInfeas", none => some .wrappedInfeas
+  | "solCheck", none => some .solCheck
+  | "unsupported", none => some .unsupported
+  | "optionError", none => some .optionError
+  | "readError", none => some .readError
+  | "fmtError", none => some .fmtError
+  | "systemError", none => some .systemError
+  | "stdExn", none => some .stdExn
+  | "foreign", none => some .foreign
+  | _, _ => none
+
+def parseFault (s : String) : Option (Option (Stage × Raise)) :=
+  if s == "none" then some none else
+  match s.splitOn ":" with
+  | [st, r] => do let st ← parseStage st; let r ← parseRaise r none; pure (some (st, r))
+  | [st, r, c] => do let st ← parseStage st; let c ← c.toInt?; let r ← parseRaise r (some c); pure (some (st, r))
+  | _ => none
+
+def parseBool : String → Option Bool
+  | "0" => some false | "1" => some true | _ => none
+
+def allSome {α} : List (Option α) → Option (List α)
+  | [] => some []
+  | none :: _ => none
+  | some a :: xs => (allSome xs).map (a :: ·)
+
+def parseScenario (ws : List String) : Option Scenario :=
+  match ws with
+  | [flags, stub, ampl, opts, objno, ncons, nvars, pcons, pvars, op, fl, fault, code, hx, hp] => do
+    let flags ← if flags == "-" then some [] else allSome (flags.toList.map parseFlag)
+    let opts ← if opts == "-" then some [] else allSome ((opts.splitOn ",").map parseOptTok)
+    let stub ← parseBool stub
+    let ampl ← parseBool ampl
+    let objno ← parseBool objno
+    let ncons ← ncons.toNat?
+    let nvars ← nvars.toNat?
+    let pcons ← pcons.toNat?
+    let pvars ← pvars.toNat?
+    let op ← parseBool op
+    let fl ← parseBool fl
+    let fault ← parseFault fault
+    let code ← code.toInt?
+    let hx ← parseBool hx
+    let hp ← parseBool hp
+    pure { flags := flags, hasStub := stub, ampl := ampl, opts := opts, objnoTooBig := objno,
+           dims := ⟨ncons, nvars⟩, partialDims := ⟨pcons, pvars⟩, out := ⟨op, fl⟩, fault := fault, answer := ⟨code, hx, hp⟩ }
+  | _ => none
+
+partial def loop (h : IO.FS.Stream) (out : IO.FS.Stream) : IO Unit := do
+  let line ← h.getLine
+  if line.isEmpty then return ()
+  match line.trimAscii.toString.splitOn " " with
+  | "run" :: ws =>
+    match parseScenario ws with
+    | some sc =>
+      let o := run sc
+      let g := if decide (Good sc o) then "1" else "0"
+      let r := if decide (Regular sc (ending sc)) then "1" else "0"
+      out.putStrLn s!"{o.toStr} | good={g} regular={r}"
+    | none => out.putStrLn "bad-op"
+  | _ => out.putStrLn "bad-op"
+  loop h out
+
+def main : IO Unit := do
+  let out ← IO.getStdout
+  loop (← IO.getStdin) out
